@@ -275,6 +275,33 @@ def resolve(tree, path):
     return node
 
 
+def diffx_subclass(L, deep):
+    """A DiffX subclass that overrides nothing (deep=False), or only the
+    documented add_change() / add_file() so that its trees consist of its
+    own, otherwise unchanged section subclasses (deep=True)."""
+    if not deep:
+        return type('DiffX', (L.DiffX,), {'__slots__': ()})
+
+    o = L.dom_objects
+    File = type('DiffXFileSection', (o.DiffXFileSection,), {'__slots__': ()})
+
+    def add_file(self, **attrs):
+        f = File(parent_section=self, **attrs)
+        self.files.append(f)
+        return f
+
+    Change = type('DiffXChangeSection', (o.DiffXChangeSection,),
+                  {'__slots__': (), 'add_file': add_file})
+
+    def add_change(self, **attrs):
+        c = Change(parent_section=self, **attrs)
+        self.changes.append(c)
+        return c
+
+    return type('DiffX', (L.DiffX,), {'__slots__': (),
+                                      'add_change': add_change})
+
+
 def argval(world, st, v, top=True):
     """The Python value an op hands to the library.  Scenario key
     'dom_values': 'sub' = instances of subclasses of str / int / bytes / dict
@@ -699,6 +726,18 @@ def _do(world, st, op):
             for i, l in enumerate(ls):
                 if l[:1] in (b'+', b'-') and l[:3] not in (b'+++', b'---'):
                     ls[i] = (b'-' if l[:1] == b'+' else b'+') + l[1:]
+
+            new = b'\n'.join(ls)
+
+            if new == cur:
+                new = None
+        elif isinstance(cur, bytes) and cur and how == 'swap_first_sign':
+            ls = cur.split(b'\n')
+
+            for i, l in enumerate(ls):
+                if l[:1] in (b'+', b'-') and l[:3] not in (b'+++', b'---'):
+                    ls[i] = (b'-' if l[:1] == b'+' else b'+') + l[1:]
+                    break
 
             new = b'\n'.join(ls)
 
